@@ -27,7 +27,43 @@ def corpus_statements():
                     out.append(("MYSQL", s))
     except Exception:
         pass
-    return out
+    return out + BRANCH_CORPUS
+
+
+# statements written against the branch coverage report (tools/dev/cov_report.py): every list-parsing loop of the parser with zero / one / several elements, the
+# bracketed-SELECT stack, both exits of the two CASE loops, multi-parameter CAST types — places where the generators produced only one of the two directions
+BRANCH_CORPUS = [
+    ("MYSQL", "SELECT CAST(a AS DECIMAL(10, 2)), CAST(b AS CHAR(3)), CAST(c AS SIGNED INTEGER), CAST(d AS DECIMAL(10,2,3)) FROM t"),
+    ("MYSQL", "SELECT SUM(a) OVER (PARTITION BY b, c, d ORDER BY e, f DESC, g) FROM t"),
+    ("MYSQL", "SELECT SUM(a) OVER (PARTITION BY b ORDER BY e) , MAX(a) OVER () FROM t"),
+    ("MYSQL", "SELECT CASE a WHEN 1 THEN 2 WHEN 3 THEN 4 WHEN 5 THEN 6 ELSE 7 END, CASE WHEN a THEN 1 WHEN b THEN 2 END, CASE a WHEN 1 THEN 2 END FROM t"),
+    ("HIVE", "SELECT a FROM t SORT BY a, b DESC, c"),
+    ("HIVE", "SELECT a FROM t SORT BY a, b DISTRIBUTE BY a, b, c CLUSTER BY c, d"),
+    ("HIVE", "SELECT a FROM t CLUSTER BY a, b"),
+    ("HIVE", "SELECT a FROM t DISTRIBUTE BY a"),
+    ("MYSQL", "SELECT a FROM ((SELECT a FROM t)) q"),
+    ("MYSQL", "SELECT a FROM t UNION ALL (SELECT a FROM u) UNION (SELECT a FROM v LIMIT 1)"),
+    ("MYSQL", "SELECT a FROM t UNION ALL ((SELECT a FROM u))"),
+    ("MYSQL", "SELECT a FROM t WHERE b IN ((SELECT c FROM u))"),
+    ("MYSQL", "SELECT f(), g(1), h(1, 2, 3), COUNT(DISTINCT a, b) FROM t"),
+    ("MYSQL", "SELECT a FROM t GROUP BY a, b, c WITH ROLLUP HAVING COUNT(1) > 1 ORDER BY a, b DESC, c LIMIT 1, 2"),
+    ("HIVE", "SELECT a FROM t GROUP BY a GROUPING SETS ((a, b), (a), (), c)"),
+    ("HIVE", "SELECT x, y FROM t LATERAL VIEW explode(a) v AS x LATERAL VIEW OUTER explode(b) w AS y, z"),
+    ("MYSQL", "SELECT a FROM t1, t2, t3 JOIN t4 ON 1 = 1 LEFT JOIN t5 USING (a, b) CROSS JOIN t6"),
+    ("MYSQL", "WITH w1 AS (SELECT 1), w2 AS (SELECT 2), w3 AS (SELECT 3) SELECT * FROM w1, w2, w3"),
+    ("MYSQL", "INSERT INTO t (a, b, c) VALUES (1, 2, 3), (4, 5, 6), ()"),
+    ("HIVE", "INSERT OVERWRITE TABLE t PARTITION (dt = '1', hr = '2') SELECT a FROM u"),
+    ("HIVE", "INSERT OVERWRITE TABLE t PARTITION (dt, hr, mi) SELECT a FROM u"),
+    ("MYSQL", "UPDATE t SET a = 1, b = 2, c = 3 WHERE d = 4 ORDER BY e, f LIMIT 5"),
+    ("MYSQL", "CREATE TABLE t (a int, b int, c int, PRIMARY KEY (a, b, c), UNIQUE KEY u1 (a(3), b), KEY k1 (c) USING BTREE COMMENT 'x' KEY_BLOCK_SIZE = 0)"),
+    ("MYSQL", "ALTER TABLE t DROP COLUMN c, RENAME COLUMN d TO e, DROP COLUMN f"),
+    ("HIVE", "ALTER TABLE t DROP IF EXISTS PARTITION (dt = '1', hr = '2')"),
+    # `is_not = is_not or search…("NOT")` short-circuits (parser.py:922): after a NOT in front of IS a second NOT is not consumed (the model had it wrong; found
+    # by the derivation proof of C02)
+    ("MYSQL", "SELECT a NOT IS NOT b FROM t"), ("MYSQL", "SELECT a FROM t WHERE a NOT IS NULL AND b IS NOT NULL AND c NOT IS NOT NULL"),
+    ("HIVE", "ANALYZE TABLE t PARTITION (dt, hr) COMPUTE STATISTICS"),
+    ("HIVE", "ANALYZE TABLE t PARTITION (dt='1') COMPUTE STATISTICS NOSCAN"),
+]
 
 
 def regression_cases(prop=None):
